@@ -146,8 +146,44 @@ def entity_inert(bi, qi, s, acc):
     return None
 
 
+# ---- the configured quote strings are the ones in force NOW: quotes changed on a used instance, by every route -----
+REQUOTE_DOCS = ["\"a\" 'b' \"c 'd' e\"\n", "'x' \"y\"", "\"", "it's \"so\"\n\n> 'q'\n"]
+ROUTES = ["setitem", "setattr", "update", "set"]
+
+
+def _set_quotes(md, q, route):
+    if route == "setitem":
+        md.options["quotes"] = q
+    elif route == "setattr":
+        md.options.quotes = q
+    elif route == "update":
+        md.options.update({"quotes": q})
+    else:
+        md.set({**dict(md.options), "quotes": q})  # (set() replaces the whole options object)
+
+
+def requote_case(bi, qa, qb, route, doc, acc):
+    from markdown_it import MarkdownIt
+
+    preset, o = BASES[bi]
+    oo = dict(o)
+    oo.update({"typographer": True, "quotes": QUOTES[qa]})
+    live = MarkdownIt(preset, oo).enable(["replacements", "smartquotes"])
+    acc.call(live.render, doc)
+    _set_quotes(live, QUOTES[qb], route)
+    got = acc.call(live.render, doc)
+    oo["quotes"] = QUOTES[qb]
+    exp = acc.call(MarkdownIt(preset, oo).enable(["replacements", "smartquotes"]).render, doc)
+    if got is CRASH or exp is CRASH:
+        return None
+    if got != exp:
+        return f"quotes changed by {route} on a used instance: output {got!r} differs from a fresh instance with these quotes {exp!r}"
+    return None
+
+
 def bounds(tier):
-    return {"atoms": ATOMS, "L": 4 if tier == "thorough" else 3, "quotes": QUOTES, "bases": BASES, "modes": MODES}
+    return {"atoms": ATOMS, "L": 4 if tier == "thorough" else 3, "quotes": QUOTES, "bases": BASES, "modes": MODES,
+            "requote_histories": {"docs": REQUOTE_DOCS, "routes": ROUTES, "what": "render, change quotes (every ordered pair of quote sets) by each route, render again; compared with a fresh instance"}}
 
 
 def shards(tier):
@@ -159,10 +195,25 @@ def shards(tier):
                 continue
             for f in ATOMS:
                 sh.append(("t", bi, qi, f, 3 if th else 2))
+    for bi in range(len(BASES)):
+        sh.append(("requote", bi))
     return sh
 
 
 def run_shard(sh, acc):
+    if sh[0] == "requote":
+        bi = sh[1]
+        for qa in range(len(QUOTES)):
+            for qb in range(len(QUOTES)):
+                for route in ROUTES:
+                    for doc in REQUOTE_DOCS:
+                        acc.case()
+                        r = requote_case(bi, qa, qb, route, doc, acc)
+                        if r:
+                            acc.violation("requote", "quotes changed on a used instance are not the ones applied",
+                                          {"base": bi, "qa": qa, "qb": qb, "route": route, "doc": doc}, r)
+        acc.sample("requote", {"base": bi, "qa": 0, "qb": 1, "route": "setitem", "doc": REQUOTE_DOCS[0]}, 1)
+        return
     _, bi, qi, f, rem = sh
     for k in range(0, rem + 1):
         for combo in itertools.product(ATOMS, repeat=k):
@@ -181,6 +232,12 @@ def run_shard(sh, acc):
 
 def check_case(case, acc):
     acc.case()
+    if case.get("sub") == "requote":
+        r = requote_case(case["base"], case["qa"], case["qb"], case["route"], case["doc"], acc)
+        if r:
+            acc.violation("requote", "quotes changed on a used instance are not the ones applied",
+                          {k: case[k] for k in ("base", "qa", "qb", "route", "doc")}, r)
+        return
     r = one(case["base"], case["quotes"], case["s"], acc)
     if not r:
         e = entity_inert(case["base"], case["quotes"], case["s"], acc)
